@@ -92,7 +92,7 @@ ConstantConsultOK(e) ==
 FloatConsultOK(e) ==
     IF p.invalid THEN e.stop                                           \* documented constraints violated: stop at once
     ELSE IF p.unlimited THEN ~e.stop /\ e.wsign = 0
-    ELSE /\ ~e.stop                                                    \* bounded loops never reach the overflow stop
+    ELSE /\ (~e.stop \/ ("crossed" \in DOMAIN e /\ e.crossed))         \* bounded loops never reach the overflow stop; a ramp followed down to a rate of zero may stop there
          /\ (e.wsign = 1 => nhits >= e.hlo)                            \* WaitOnlyWhenAhead
          /\ e.wsign >= 0
 
